@@ -63,7 +63,7 @@ _SXG, _BND = ['FuncsSxgver', 'FuncsMice', 'FuncsSh', 'FuncsCbor'], ['FuncsBundle
 FUNC_TIES = {
     'C01': _SXG, 'C02': _SXG, 'C08': _SXG, 'C09': _SXG, 'C03': _BND, 'C04': _BND, 'C05': _BND, 'C06': _BND + ['FuncsMice'], 'C07': ['FuncsCbor'],
     'C10': _SXG + ['FuncsBundlever'], 'C11': ['FuncsCbor'], 'C12': ['FuncsCbor'], 'C13': ['FuncsCbor'], 'C14': ['FuncsMice'], 'C15': ['FuncsMice'], 'C16': ['FuncsSh'],
-    'C17': ['FuncsCbor'], 'C18': _SXG + ['FuncsBundlever'], 'C19': _SXG + ['FuncsBundlever'], 'C20': _SXG + ['FuncsBundlever'],
+    'C17': ['FuncsCbor'], 'C18': _SXG + ['FuncsBundlever', 'Purity'], 'C19': _SXG + ['FuncsBundlever'], 'C20': _SXG + ['FuncsBundlever'],
 }
 
 
@@ -76,7 +76,7 @@ def lean_check(pid, tier):
     tie_names = FACT_TIES.get(pid, []) + FUNC_TIES.get(pid, [])
     for part, err in facts.items():
         # a translator refusal concerns only the properties whose ties import that package's module
-        if part == 'facts' or ('Funcs' + part[0].upper() + part[1:]) in tie_names:
+        if part == 'facts' or ('Funcs' + part[0].upper() + part[1:]) in tie_names or (part == 'purity' and 'Purity' in tie_names):
             res['ok'] = False
             res['failures'].append(f'source translation ({part}): {err}')
     mod = f'WebPkg.Properties.{pid}'
